@@ -12,7 +12,9 @@ const SENDERS: [&str; 4] = ["owner", "alice", "bob", "carol"];
 
 // ------------------------------------------------------------------------------------------------ manager
 #[derive(Clone, Debug)]
-enum MEv { Create { sender: usize, bad: Vec<usize> }, Add { sender: usize, h: usize }, Remove { sender: usize, h: usize } }
+enum MEv { Create { sender: usize, bad: Vec<usize> }, Add { sender: usize, h: usize }, Remove { sender: usize, h: usize },
+           /// UpdateConfig naming an epoch_config with the SAME duration and another genesis_epoch: the running clock is not touched
+           SetGenesis { sender: usize, g: u64 } }
 
 struct MWorld { app: App, mgr: Addr, hooks: Vec<Addr>, duration: u64 }
 
@@ -81,6 +83,12 @@ fn run_manager_case(out: &mut Out, id0: u64, start0: u64, duration: u64, t0: u64
                 (format!("MAddHook {} {}", coqbool(*sender == 0), h),
                  run_catch(|| w.app.execute_contract(Addr::unchecked(SENDERS[*sender]), mgr, &em::ExecuteMsg::AddHook { contract_addr: ha }, &[]), classify))
             }
+            MEv::SetGenesis { sender, g } => {
+                let (mgr, dur) = (w.mgr.clone(), w.duration);
+                (format!("MSetGenesis {} {}", coqbool(*sender == 0), g),
+                 run_catch(|| w.app.execute_contract(Addr::unchecked(SENDERS[*sender]), mgr, &em::ExecuteMsg::UpdateConfig { owner: None,
+                     epoch_config: Some(em::EpochConfig { duration: Uint64::new(dur), genesis_epoch: Uint64::new(*g) }) }, &[]), classify))
+            }
             MEv::Remove { sender, h } => {
                 let (mgr, ha) = (w.mgr.clone(), w.hooks[*h].to_string());
                 (format!("MRemoveHook {} {}", coqbool(*sender == 0), h),
@@ -121,10 +129,16 @@ fn run_manager_case(out: &mut Out, id0: u64, start0: u64, duration: u64, t0: u64
             }
             MEv::Add { h, .. } => { if ok { kinds.insert("add"); if !registered.contains(h) { registered.push(*h); } else { out.monitor_fail("C20", "epoch manager: a hook was registered twice", replay.clone()); } }
                                     out.count(if ok { "mgr:add_ok" } else { "mgr:add_err" });
-                                    if after != before { out.monitor_fail("C20", "epoch manager: AddHook changed the epoch", replay.clone()); } }
+                                    if after != before { out.monitor_fail("C20", "epoch manager: AddHook changed the epoch", replay.clone()); }
+                                    if (0..3).any(|i| logs_after[i] != logs_before[i]) { out.monitor_fail("C20", "epoch manager: a hook was notified although no epoch was created (AddHook)", replay.clone()); } }
+            MEv::SetGenesis { .. } => { if ok { kinds.insert("set_genesis"); }
+                                        out.count(if ok { "mgr:set_genesis_ok" } else { "mgr:set_genesis_err" });
+                                        if after != before { out.monitor_fail("C20", "epoch manager: an update of the configured genesis moved the running clock", replay.clone()); }
+                                        if (0..3).any(|i| logs_after[i] != logs_before[i]) { out.monitor_fail("C20", "epoch manager: a hook was notified although no epoch was created (UpdateConfig)", replay.clone()); } }
             MEv::Remove { h, .. } => { if ok { kinds.insert("remove"); registered.retain(|x| x != h); }
                                        out.count(if ok { "mgr:remove_ok" } else { "mgr:remove_err" });
-                                       if after != before { out.monitor_fail("C20", "epoch manager: RemoveHook changed the epoch", replay.clone()); } }
+                                       if after != before { out.monitor_fail("C20", "epoch manager: RemoveHook changed the epoch", replay.clone()); }
+                                       if (0..3).any(|i| logs_after[i] != logs_before[i]) { out.monitor_fail("C20", "epoch manager: a hook was notified although no epoch was created (RemoveHook)", replay.clone()); } }
         }
         if ok && matches!(e, MEv::Create { .. }) { seen.push(after); }
         // Epoch { id } must report every epoch of the history with the start time it had (first, last, and a few recent ones)
@@ -193,6 +207,8 @@ fn gen_manager(out: &mut Out, rng: &mut Rng) {
         let e = match rng.below(10) {
             0 | 1 => MEv::Add { sender: if rng.chance(1, 5) { 1 + rng.below(3) as usize } else { 0 }, h: rng.below(3) as usize },
             2 => MEv::Remove { sender: if rng.chance(1, 5) { 1 + rng.below(3) as usize } else { 0 }, h: rng.below(3) as usize },
+            3 if rng.chance(1, 2) => MEv::SetGenesis { sender: if rng.chance(1, 5) { 1 + rng.below(3) as usize } else { 0 },
+                                                       g: match rng.below(4) { 0 => 0, 1 => t, 2 => t.saturating_add(duration), _ => start0.saturating_sub(1) } },
             _ => {
                 let bad = if rng.chance(1, 6) { vec![rng.below(3) as usize] } else { vec![] };
                 if bad.is_empty() && (t as u128) >= start as u128 + duration as u128 { start = start.saturating_add(duration); }
